@@ -42,4 +42,3 @@ package utils
 //@ func NextLine(b) line, rest, err
 //@   props C03
 //@   ensures err == nil ==> within(line, b) && within(rest, b) && len(rest) < len(b)
-
